@@ -124,6 +124,8 @@ class Interval(Module):
             return tensor
 
         transformed_tensor = (self._transform(tensor) * (self.upper_bound - self.lower_bound)) + self.lower_bound
+        # rounding in the affine map must not carry a saturated value outside the closed interval (check_raw relies on it)
+        transformed_tensor = torch.min(torch.max(transformed_tensor, self.lower_bound), self.upper_bound)
 
         return transformed_tensor
 
